@@ -1040,3 +1040,133 @@ Proof.
     split; [left; apply Hnz; exact E1|]. split; [exact Hll|]. split; [exact Hlu|]. intros _ _.
     apply orb_false_iff in Ep. destruct Ep as [Ea Eb]. apply negb_false_iff in Ea, Eb. repeat split; assumption.
 Qed.
+
+(* ================================================================================================ *)
+(* Round 5                                                                                           *)
+(* ================================================================================================ *)
+
+Lemma opes_sigma_nlist_accept n e :
+  x_err (fst (opes_sigma_nlist_validate n e)) = false ->
+  let '(sg, np) := snd (opes_sigma_nlist_validate n e) in
+  (eflag e "adaptiveSigma" false = false -> forallb (fun q => Qltb Q0 q) sg = true) /\
+  (forall p0 p1, np = [p0; p1] -> Qle_bool p0 (1 # 1) = false /\ Qle_bool p1 Q0 = false /\ Qle_bool (116 # 100) p1 = false /\
+                                  Qltb (((116 # 100) - p1) * ((116 # 100) - p1) * p0) (1 # 1) = false).
+Proof.
+  unfold opes_sigma_nlist_validate.
+  destruct (match elist e "gaussianSigma" with None => (repeat Q0 n, false) | Some ts => getV (Some ts) (repeat Q0 n) end) as [sg es].
+  destruct (negb (eflag e "adaptiveSigma" false) && (es || negb (forallb (fun q => Qltb Q0 q) sg))) eqn:E1; [cbn; discriminate|].
+  assert (Hs : eflag e "adaptiveSigma" false = false -> forallb (fun q => Qltb Q0 q) sg = true).
+  { intro Ha. rewrite Ha in E1. cbn [negb andb] in E1. apply orb_false_iff in E1. destruct E1 as [_ E1].
+    apply negb_false_iff in E1. exact E1. }
+  destruct (eflag e "neighborList" false).
+  - destruct (getV (elist e "neighborListParameters") []) as [np en].
+    destruct np as [|p0 [|p1 [|p2 r]]].
+    + cbn [snd]. intros _. split; [exact Hs | intros; discriminate].
+    + cbn [fst]. rewrite x_err_flag_input. discriminate.
+    + destruct (Qle_bool p0 (1 # 1) || Qle_bool p1 Q0 || Qle_bool (116 # 100) p1 ||
+                Qltb (((116 # 100) - p1) * ((116 # 100) - p1) * p0) (1 # 1)) eqn:E2;
+        [cbn [fst]; rewrite x_err_flag_input; discriminate|].
+      cbn [snd]. intros _. split; [exact Hs|]. intros q0 q1 Hq. assert (q0 = p0 /\ q1 = p1) as [-> ->] by (split; congruence).
+      apply orb_false_iff in E2. destruct E2 as [E2 E5]. apply orb_false_iff in E2. destruct E2 as [E2 E4].
+      apply orb_false_iff in E2. destruct E2 as [E2 E3]. repeat split; assumption.
+    + cbn [fst]. rewrite x_err_flag_input. discriminate.
+  - cbn [snd]. intros _. split; [exact Hs | intros; discriminate].
+Qed.
+
+(* rmsd: accepted => as many reference positions as atoms, and at least one atom *)
+Lemma rmsd_accept g inline file :
+  x_err (fst (rmsd_validate g inline file)) = false -> snd (rmsd_validate g inline file) = g /\ (1 <= g)%nat.
+Proof.
+  unfold rmsd_validate. destruct (Nat.eqb g 0) eqn:Eg; [cbn; discriminate|].
+  assert (Hg : (1 <= g)%nat) by (apply Nat.eqb_neq in Eg; lia).
+  destruct inline as [m|].
+  - cbn [fst snd]. rewrite x_err_flag_input. intro H. apply orb_false_iff in H. destruct H as [H _].
+    apply orb_false_iff in H. destruct H as [H _]. apply negb_false_iff in H. apply Nat.eqb_eq in H. split; assumption.
+  - destruct file as [[ex m]|]; [destruct ex|]; cbn [fst snd].
+    + rewrite x_err_flag_input. intro H. apply orb_false_iff in H. destruct H as [H _].
+      apply negb_false_iff in H. apply Nat.eqb_eq in H. split; assumption.
+    + cbn. discriminate.
+    + cbn. discriminate.
+Qed.
+
+(* allocation sites: whatever the input, an ACCEPTED size is at most 3 * INT_MAX elements (INT_MAX for grids, scripted
+   vectors and correlation histories), and a grid and a histogramRestraint also fit what the host grants *)
+Lemma alloc_sites_bounded host dims mult hr scripted rof c :
+  1 <= mult <= int_max ->
+  Forall (fun a => as_accepted a = true -> as_elements a <= 3 * int_max) (alloc_sites host dims mult hr scripted rof c).
+Proof.
+  intro Hm. unfold alloc_sites.
+  destruct (grid_init host true dims mult 8) as [[gv gnt] gnxc] eqn:Eg.
+  assert (Hi : 0 < int_max) by reflexivity.
+  repeat constructor; cbn [as_accepted as_elements].
+  - destruct gv; [|discriminate]. intros _. destruct (grid_init_accept _ _ _ _ _ _ _ Hm Eg) as (_ & _ & Hb & _). lia.
+  - intro H. apply negb_true_iff in H. destruct (histrestr_safe host hr) as [_ Hh]. specialize (Hh H). lia.
+  - intro H. apply negb_true_iff in H. destruct (scripted_safe host scripted) as [_ Hs]. specialize (Hs H). lia.
+  - intro H. apply andb_true_iff in H. destruct H as [H1 H2]. apply negb_true_iff in H1.
+    pose proof (corrfunc_capacity rof c H1 H2) as (_ & _ & Hc). cbn zeta in Hc. lia.
+Qed.
+
+(* ---- ebMeta: after an accepted initialisation every value of the target distribution is positive ------- *)
+Local Open Scope Q_scope.
+
+Lemma Qltb_true a b : Qltb a b = true <-> a < b.
+Proof.
+  unfold Qltb. rewrite negb_true_iff. split; intro H.
+  - apply Qnot_le_lt. intro Hle. apply Qle_bool_iff in Hle. congruence.
+  - destruct (Qle_bool b a) eqn:E; [|reflexivity]. apply Qle_bool_iff in E. exfalso. exact (Qlt_not_le _ _ H E).
+Qed.
+
+Lemma Qltb_false a b : Qltb a b = false <-> b <= a.
+Proof.
+  unfold Qltb. rewrite negb_false_iff. apply Qle_bool_iff.
+Qed.
+
+Lemma qmin_choice l d : qmin l d = d \/ In (qmin l d) l.
+Proof.
+  induction l as [|a r IH]; cbn [qmin]; [left; reflexivity|].
+  destruct (Qle_bool a (qmin r d)); [right; left; reflexivity|]. destruct IH as [IH|IH]; [left; exact IH | right; right; exact IH].
+Qed.
+
+Lemma qmin_le l d a : In a l -> qmin l d <= a.
+Proof.
+  induction l as [|b r IH]; intro Hin; [contradiction|]. cbn [qmin].
+  destruct (Qle_bool b (qmin r d)) eqn:E.
+  - apply Qle_bool_iff in E. destruct Hin as [<-|Hin]; [apply Qle_refl | eapply Qle_trans; [exact E | apply IH; exact Hin]].
+  - destruct Hin as [<-|Hin]; [| apply IH; exact Hin].
+    apply Qlt_le_weak. apply Qnot_le_lt. intro Hle. apply Qle_bool_iff in Hle. congruence.
+Qed.
+
+Lemma qmax_choice l d : qmax l d = d \/ In (qmax l d) l.
+Proof.
+  induction l as [|a r IH]; cbn [qmax]; [left; reflexivity|].
+  destruct (Qle_bool (qmax r d) a); [right; left; reflexivity|]. destruct IH as [IH|IH]; [left; exact IH | right; right; exact IH].
+Qed.
+
+Lemma ebmeta_accept expand file e :
+  x_err (fst (ebmeta_validate expand file e)) = false ->
+  forallb (fun q => Qltb Q0 q) (snd (ebmeta_validate expand file e)) = true /\ expand = false /\ file <> None.
+Proof.
+  unfold ebmeta_validate. destruct file as [vals|]; [| cbn; destruct expand; discriminate].
+  destruct (Qle_bool (qmax vals Q0) Q0) eqn:Emax; [cbn [fst]; rewrite x_err_flag_input; discriminate|].
+  destruct (ereal e "targetDistMinVal" (1 # 1000000)) as [v p0].
+  cbn [fst snd]. rewrite !x_err_flag_input. cbn [x_err no_errs]. intro H.
+  apply orb_false_iff in H. destruct H as [Hv H]. apply orb_false_iff in H. destruct H as [Hneg Hexp].
+  rewrite orb_false_r in Hexp.
+  split; [| split; [exact Hexp | discriminate]].
+  assert (Hmaxpos : Q0 < qmax vals Q0).
+  { apply Qnot_le_lt. intro Hle. apply Qle_bool_iff in Hle. congruence. }
+  assert (Hnonneg : forall q, In q vals -> Q0 <= q).
+  { intros q Hq. apply Qltb_false in Hneg. eapply Qle_trans; [exact Hneg | apply qmin_le; exact Hq]. }
+  set (thr := if Qltb Q0 v && Qltb v (1 # 1) then v * qmax vals Q0 else qmin (filter (fun q => Qltb Q0 q) vals) (qmax vals Q0)).
+  assert (Hthr : Q0 < thr).
+  { unfold thr. destruct (Qltb Q0 v && Qltb v (1 # 1)) eqn:Ev.
+    - apply andb_true_iff in Ev. destruct Ev as [Ev _]. apply Qltb_true in Ev.
+      unfold Q0 in *. apply Qmult_lt_0_compat; assumption.
+    - destruct (qmin_choice (filter (fun q => Qltb Q0 q) vals) (qmax vals Q0)) as [-> | Hin]; [exact Hmaxpos|].
+      apply filter_In in Hin. destruct Hin as [_ Hpos]. apply Qltb_true in Hpos. exact Hpos. }
+  apply forallb_forall. intros q Hq. apply in_map_iff in Hq. destruct Hq as (q0 & <- & Hq0).
+  apply Qltb_true. destruct (Qltb q0 thr) eqn:Eq; [exact Hthr|].
+  apply Qltb_false in Eq. eapply Qlt_le_trans; [exact Hthr | exact Eq].
+Qed.
+
+Local Close Scope Q_scope.
